@@ -2079,10 +2079,12 @@ package main
 //@   trusted
 //@   panics may
 //@ func retRecordGen
-//@   trusted
+//@   props C03 C05
 //@   modifies maps
 //@   panics may
 //@   ensures state-kept: result.E0 == ps
+//@   ensures only-when-a-record-type-was-found: ok
+//@   ensures the-record-literal: is(Expr_ERecordGen, result.E1) && Expr_ERecordGen_Value(result.E1).FieldsNV == neps && Expr_ERecordGen_Value(result.E1).RecordType.Name == rfac.Name && len(Expr_ERecordGen_Value(result.E1).RecordType.Targs) == len(rfac.Tparams)
 
 //@ func parseRecordGen
 //@   props C05 C03 C16
